@@ -43,6 +43,7 @@ def run(prog, rep, tier='quick', config='default'):
         return
     ob, ps = obs[0], passes[0]
 
+    r17i(prog, rep, ps, ob)
     # ------------------------------------------------------------------ R17a
     loops = [(nc, h, b) for (nc, h, b) in ps.iterator_loops() if 'txdelta::TxDelta' in ps.ty.get(nc.arg_local(0), '')]
     nc, header, body = loops[0]
@@ -398,3 +399,78 @@ def run(prog, rep, tier='quick', config='default'):
             rep.ok('R17d', 'replace-only-for-strictly-larger-total', fn=f.name, detail='the remembered day is replaced only when its total is strictly smaller than the new day\'s total')
         elif good is False:
             rep.violation('R17d', 'anchor-lost:yearly-comparison', fn=f.name, detail='anchor lost: comparison of the remembered day\'s total with the new day\'s total')
+
+
+def r17i(prog, rep, ps, ob):
+    """every security has a figure on every day. (i) The carry-forward pass — the loop over the securities, inside the loop over
+    the days, that calls the observer for a security without a figure of its own that day — runs over the whole security set: no
+    filter / skip / take on the way (a security "not opened yet" has its opening cost base that day). (ii) Where the report reads a
+    security's figure of a day, a missing entry is not papered over with a default (zero): the look-up is unwrapped or indexed."""
+    DROPS = {'filter', 'filter_map', 'skip', 'skip_while', 'take', 'take_while', 'step_by', 'map_while', 'retain', 'dedup', 'truncate', 'drain', 'pop',
+             'remove', 'swap_remove', 'split_off'}
+    n = 0
+    view = mir.inline_view(prog, getattr(ps, 'origin', ps))
+    for f in {id(x): x for x in (ps, view)}.values():
+        for (nc, header, body) in f.iterator_loops():
+            obs_calls = [c for c in f.calls if c.bb in body and c.callee == ob.name]
+            outer = [1 for (nc2, h2, b2) in f.iterator_loops() if h2 != header and header in b2]
+            if not obs_calls or not outer or 'txdelta::TxDelta' in (f.ty.get(nc.arg_local(0), '') or ''):
+                continue
+            inner = [1 for (nc2, h2, b2) in f.iterator_loops() if h2 != header and h2 in body and any(c.bb in b2 for c in obs_calls)]
+            if inner:
+                continue
+            n += 1
+            src = mir.provenance(f, nc.args[0], follow_all_call_args=True)
+            dropped = [x for x in src.calls if x.short in DROPS and (x.decl.startswith('std::iter::') or 'vec::Vec' in x.callee or 'slice' in x.callee)]
+            k = 'carry-forward-visits-every-security'
+            if dropped:
+                rep.violation('R17i', k, where=dropped[0].where(), fn=ps.name,
+                              detail='the securities whose figure is carried forward into a day pass through %s() first: a security it leaves out has no figure '
+                                     'that day (e.g. its opening cost base before its first transaction) and is missing from the row total' % dropped[0].short)
+            else:
+                rep.ok('R17i', k, where=nc.where(), fn=ps.name, detail='the carry-forward loop runs over the whole security set')
+            break
+        if n:
+            break
+    if n == 0:
+        rep.violation('R17i', 'anchor-lost:carry-forward-loop', fn=ps.name, detail='anchor lost: the loop over the securities inside the loop over the days that carries figures forward')
+    # (ii) readers of the per-security figures of a day
+    FIG = 'sec_max_cost_for_day'
+    n_r = 0
+    bad = None
+    for f in prog.product_fns():
+        if mir.is_testsupport(f.name) or f.name.startswith(MOD):
+            continue
+        for c in f.calls:
+            if c.short not in ('get', 'index') or not c.args:
+                continue
+            ro = mir.provenance(f, c.args[0])
+            flds = set(ro.fields)
+            if f.kind == 'Closure' and ro.upvars:
+                f2, _cs = mir.origins_with_captures(prog, prog.owner_of(f), f, c.args[0])
+                flds |= set(f2)
+                for b in prog.owner_of(f).blocks.values():
+                    for st in b['stmts']:
+                        if st['r']['rv'] == 'agg' and st['r']['kind'] == 'closure:' + f.name:
+                            for o in st['r']['ops']:
+                                if is_place(o):
+                                    flds |= set(mir.provenance(prog.owner_of(f), o).fields)
+            if not any(fl == FIG for (_of, fl) in flds):
+                continue
+            n_r += 1
+            if c.short == 'index':
+                continue
+            t = mir.forward_taint(f, {c.dst['l']}, stop=lambda x: not re.search(r'^std::option::Option', x.callee))
+            soft = [x for x in f.calls if x.short in ('unwrap_or', 'unwrap_or_default', 'unwrap_or_else', 'map_or', 'map_or_else', 'is_some', 'is_none', 'is_some_and', 'ok_or', 'ok_or_else')
+                    and x.arg_local(0) in t and re.search(r'^std::option::Option', x.callee)]
+            if soft and bad is None:
+                bad = (f, soft[0])
+    if bad:
+        f, x = bad
+        rep.violation('R17i', 'missing-figure-is-not-defaulted', where=x.where(), fn=f.name,
+                      detail='a security\'s figure of a day is read with %s(): a security without an entry is shown with a default instead of its cost base '
+                             '(and the row no longer adds up to its total)' % x.short)
+    elif n_r:
+        rep.ok('R17i', 'missing-figure-is-not-defaulted', fn='portfolio::render', detail='%d look-ups of a per-security figure, none with a default' % n_r)
+    else:
+        rep.violation('R17i', 'anchor-lost:figure-readers', detail='anchor lost: where the report reads MaxSingleDayCosts.sec_max_cost_for_day')
